@@ -49,7 +49,8 @@ def demo_cmd(src, wt):
             cmds.append(("cargo test --offline --test %s" % name, os.path.join(wt, "tests", name + ".rs")))
         elif f.endswith(".sh"):
             # run in place (the script finds its companions next to itself), from the worktree root
-            cmds.append(("sh %s" % os.path.join(src, f), "/nonexistent"))
+            sh_ = "bash" if "bash" in open(os.path.join(src, f)).readline() else "sh"
+            cmds.append(("%s %s" % (sh_, os.path.join(src, f)), "/nonexistent"))
         elif f.endswith(".py"):
             cmds.append(("python3 %s" % os.path.join(src, f), "/nonexistent"))
     return cmds
